@@ -333,6 +333,9 @@ def run(sc, choices=None):
         ex_ = [e for e in w.k.log if e[3] == "exit" and len(sp_) > 1 and e[4] == sp_[1][4]]
         if ex_:
             end = min(end, ex_[0][1])  # ... and given up (its ping thread stopped) when the timeout was noticed
+    early = [t for t in run_.trace if t[2] == "on_error" and t[3] and t[3][0][0] == "exc" and t[3][0][1] == "WebSocketTimeoutException" and t[1] >= t0]
+    if silent and early:
+        end = min(end, early[0][1])  # from the report on the connection is being given up: no further ping is owed
     if pings:
         if pings[0][2] - t0 > 2 * it + SLACK:
             res.violate("first_ping_late", ctx, f"first ping {(pings[0][2] - t0) / S}s after the connection came up, interval {i_s}")
